@@ -553,6 +553,31 @@ class Inliner(object):
                 bound = self._bind(hnode, call, recv)
                 if bound is not None:
                     return _splice_generator(st, hnode, bound[0], bound[1])
+            # `xs = list(gen(...))`: the generator's body appending to a new list
+            if isinstance(st, ast.Assign) and len(st.targets) == 1 and isinstance(st.targets[0], ast.Name) and \
+                    isinstance(st.value, ast.Call) and isinstance(st.value.func, ast.Name) and st.value.func.id in ('list', 'tuple') \
+                    and len(st.value.args) == 1 and st.value.args[0] is call and not st.value.keywords:
+                bound = self._bind(hnode, call, recv)
+                if bound is not None:
+                    tgt = st.targets[0].id
+                    if tgt in {n.id for n in ast.walk(hnode) if isinstance(n, ast.Name)}:
+                        return None
+                    loop = ast.For(target=ast.Name(id='_item_%s' % tgt, ctx=ast.Store()), iter=call, orelse=[],
+                                   body=[ast.Expr(value=ast.Call(func=ast.Attribute(value=ast.Name(id=tgt, ctx=ast.Load()), attr='append', ctx=ast.Load()),
+                                                                 args=[ast.Name(id='_item_%s' % tgt, ctx=ast.Load())], keywords=[]))])
+                    ast.copy_location(loop, st)
+                    ast.fix_missing_locations(loop)
+                    spliced = _splice_generator(loop, hnode, bound[0], bound[1])
+                    if spliced is None:
+                        return None
+                    init = ast.copy_location(ast.Assign(targets=[ast.Name(id=tgt, ctx=ast.Store())], value=ast.List(elts=[], ctx=ast.Load())), st)
+                    out = [init] + spliced
+                    if st.value.func.id == 'tuple':
+                        out.append(ast.copy_location(ast.Assign(targets=[ast.Name(id=tgt, ctx=ast.Store())],
+                                                                value=ast.Call(func=ast.Name(id='tuple', ctx=ast.Load()), args=[ast.Name(id=tgt, ctx=ast.Load())], keywords=[])), st))
+                    for x in out:
+                        ast.fix_missing_locations(x)
+                    return out
             return None
         if any(isinstance(n, ast.Call) and n is not call and self.helper_for(func, n, local_defs) and
                self.helper_for(func, n, local_defs)[1] is hnode for n in ast.walk(ast.Module(body=hnode.body, type_ignores=[]))):
